@@ -43,6 +43,10 @@ def streams(tier, rng, P, only=None, cases=None):
         for j, (prog, _) in enumerate(fixed):
             src = mml.pr(prog)
             cs.append(dict(req="run " + hx(src), src=src, show=src, sexp=mml.sexp(prog), key="fixed%d" % j))
+        # blanks inside the parentheses of an argument, also before the closing one: the same command
+        for j, (src, prog) in enumerate([("v( 100 ) c", [('v', 100), N_('c')]), ("o( 4 ) c", [('o', 4), N_('c')]), ("q( 50 ) d", [('q', 50), N_('d')]), ("t( 3 ) e", [('t', 3), N_('e')]),
+                                         ("v(90 ) c o(6 ) d", [('v', 90), N_('c'), ('o', 6), N_('d')]), ("v(\t64\t) c", [('v', 64), N_('c')])]):
+            cs.append(dict(req="run " + hx(src), src=src, show=src, sexp=mml.sexp(prog), key="paren%d" % j))
         # gate sweep: every (length in ticks, gate rate) pair of a dense grid sounds for the truncated exact product len*q/100
         for g in range(1, 151 if big else 101):
             for lo in range(1, 1201 if big else 501, 100):
